@@ -423,6 +423,9 @@ def numeric_variant(fn, loop):
         return None
     names = {n.id for n in ast.walk(loop.test) if isinstance(n, ast.Name)}
     for st in loop.body:
+        if isinstance(st, ast.Assign) and len(st.targets) == 1 and isinstance(st.targets[0], ast.Name) and isinstance(st.value, ast.BinOp) and isinstance(st.value.left, ast.Name) \
+                and st.value.left.id == st.targets[0].id:
+            st = ast.AugAssign(target=st.targets[0], op=st.value.op, value=st.value.right)      # x = x op y, same thing
         if isinstance(st, ast.AugAssign) and isinstance(st.target, ast.Name) and st.target.id in names and isinstance(st.op, (ast.Sub, ast.Add, ast.RShift, ast.FloorDiv)):
             step = st.value
             if isinstance(step, ast.Constant) and isinstance(step.value, int) and step.value >= 1 and not (isinstance(st.op, ast.FloorDiv) and step.value < 2):
